@@ -5,7 +5,7 @@ use std::collections::BTreeMap;
 use serde_json::{Value, json};
 
 use crate::fmt06::{self, FsItem};
-use crate::icept::{KINDS, Mode, kind_name};
+use crate::icept::{KINDS, Mode, V, kind_name};
 use crate::oracle::restore_and_compare;
 use crate::props::c03::path_class;
 use crate::report::{Run, Tier, panic_site};
@@ -280,7 +280,7 @@ fn one_scenario(run: &Run, case: u64) {
         partial_write_runs(run, &sc, case, &before);
         return;
     }
-    if only_random.is_none() {
+    if only_random.is_none() && r.as_ref().and_then(|r| r.get("kind2")).is_none() {
         for k in 0..n {
             if only_k.is_some() && only_k != Some(k) {
                 continue;
@@ -305,6 +305,42 @@ fn one_scenario(run: &Run, case: u64) {
                     "at": fr.at.as_ref().map(|e| e.brief())});
                 check_fault_run(run, &sc, &fr, &before, &replay);
                 crate::scratch::rm(&fr.arch);
+            }
+        }
+    }
+    // two consecutive faults: operation k fails, and so does whatever the program does next
+    // (a retry, a cleanup, the next step); every write and every third other operation
+    let only_pair = r.as_ref().and_then(|r| r.get("kind2")).and_then(|k| k.as_str()).map(String::from);
+    if only_random.is_none() && (only_k.is_none() || only_pair.is_some()) {
+        for k in 0..n {
+            if only_k.is_some() && only_k != Some(k) {
+                continue;
+            }
+            if sc.trace[k].verb != V::Write && k % 3 != (case % 3) as usize {
+                continue;
+            }
+            for kind in KINDS {
+                for kind2 in KINDS {
+                    if only_pair.is_some() && (only_kind.as_deref() != Some(kind_name(kind)) || only_pair.as_deref() != Some(kind_name(kind2))) {
+                        continue;
+                    }
+                    if run.out_of_time() {
+                        run.count("faults_skipped_by_time_budget", 1);
+                        continue;
+                    }
+                    let fr = sc.run_with(Mode::FailAtPair { k, kind, kind2 }, 0);
+                    run.eval();
+                    run.count("fault_pairs", 1);
+                    if fr.injected >= 2 {
+                        run.count("fault_pairs_both_injected", 1);
+                        let second = fr.log.iter().filter(|e| e.injected).nth(1).map(|e| format!("{}:{}", e.verb.name(), path_class(&e.path))).unwrap_or_default();
+                        run.observe("second_fault_classes", second);
+                    }
+                    let replay = json!({"case": case, "k": k, "kind": kind_name(kind), "kind2": kind_name(kind2), "scenario": sc.desc,
+                        "injected": fr.log.iter().filter(|e| e.injected).map(|e| e.brief()).collect::<Vec<_>>()});
+                    check_fault_run(run, &sc, &fr, &before, &replay);
+                    crate::scratch::rm(&fr.arch);
+                }
             }
         }
     }
@@ -341,6 +377,6 @@ pub fn run(tier: Tier, replay: Option<Value>) -> i32 {
         "scenarios as in C03 (small blocks so combined-block flushes happen mid-run); for EVERY operation k of the backup's storage trace and each kind in {not-found, already-exists, permission-denied, other} the operation is made to fail (not executed, error returned); plus random multi-fault runs with p in {0.02, 0.1, 0.3}; plus REAL partial writes: the backup runs in a child process under RLIMIT_FSIZE in {16, 80, 150, 400, 700} bytes, on a copy of the source that also holds two incompressible multi-block files (max_block_size 1000), so that heads, tails and hunks fit while blocks are cut off (every larger archive write fails part-way inside the real local transport), followed by a fault-free backup of the same source that must then be a true success. After each run: no panic and no unbounded storage loop; every file that existed before is byte-identical; earlier versions restore exactly; every file entry of every hunk of every band, decoded independently, resolves through the raw blocks to exactly the bytes its path had in that band's source; a run that reports full success (Ok, stats.errors==0, no monitor error) has a tail and restores the source exactly. Distinct = (scenario, k, path, kind) resp. the injected set.",
         &["an injected fault returns an error without executing the operation", "E2 reader trusted (snap, serde_json, blake2-rfc)"],
         Some(true),
-        &[("single_faults", 100), ("fault_at_write", 20), ("file_entries_resolved_and_compared", 200), ("runs_reporting_an_error", 10), ("runs_reporting_full_success", 1), ("random_multi_fault_runs", 10), ("partial_write_runs", 8), ("partial_write_runs_with_errors", 2), ("partial_write_followups_exact", 2)],
+        &[("single_faults", 100), ("fault_at_write", 20), ("file_entries_resolved_and_compared", 200), ("runs_reporting_an_error", 10), ("runs_reporting_full_success", 1), ("random_multi_fault_runs", 10), ("partial_write_runs", 8), ("partial_write_runs_with_errors", 2), ("partial_write_followups_exact", 2), ("fault_pairs_both_injected", 200)],
     )
 }
